@@ -350,6 +350,16 @@ func runC06(c *Ctx) {
 			c.S.Count("probe.ws_message_over_128k")
 		}
 	}
+	if p.Segs == nil && len(p.Pkts) > 6 && c.T.Bool(1, 8) {
+		// a session that outlives every cache lifetime inside the gateway: the client is silent
+		// on its open channel for 6-16 minutes, then carries on
+		idx := 5 + c.T.Choose(len(p.Pkts)-5)
+		q := time.Duration(6+c.T.Choose(11)) * time.Minute
+		p.QuietBefore = map[int]time.Duration{idx: q}
+		p.QuietGate = OthersSetUp(&tw.Tuns, p)
+		d += fmt.Sprintf(" silent-for-%v-before-packet-%d", q, idx)
+		c.S.Count("probe.session_longer_than_cache_lifetimes")
+	}
 	if nt > 1 {
 		d += " || alongside " + buildStreamPlan(c, tw, tw.Plans[1], 1+c.T.Choose(8), 1+c.T.Choose(8), 9000, 9000, false)
 		c.S.Count("probe.second_tunnel_alongside")
@@ -582,8 +592,55 @@ func runC07(c *Ctx) {
 			c.S.Count("probe.half_open_while_another_ends")
 		}
 	}
+	silentIdx, silentPkt := -1, 0
+	if special == 0 && c.T.Bool(1, 8) {
+		// one legacy session outlives every cache lifetime inside the gateway: its client is silent
+		// for 6-16 minutes on the open channel and then carries on (the others come and go)
+		for i, p := range tw.Plans {
+			if p.Transport == "legacy" && !p.INFirst && !p.LostOut && p.Segs == nil && len(p.Pkts) > 6 && p.CloseAfter < 0 {
+				idx := 5 + c.T.Choose(len(p.Pkts)-5)
+				silentIdx, silentPkt = i, idx
+				q := time.Duration(6+c.T.Choose(11)) * time.Minute
+				p.QuietBefore = map[int]time.Duration{idx: q}
+				p.QuietGate = OthersSetUp(&tw.Tuns, p)
+				ds = append(ds, fmt.Sprintf("%s:silent-for-%v-before-packet-%d", p.Name, q, idx))
+				c.S.Count("probe.session_longer_than_cache_lifetimes")
+				break
+			}
+		}
+	}
+	if special == 0 && tw.MC.TokenAuth && c.T.Bool(1, 8) {
+		// somebody else keeps presenting a cookie whose access token the provider has revoked (a
+		// healthy provider says 401 each time); that is his problem alone
+		at := c.W.IdP.IssueAccessToken("leaver")
+		c.W.IdP.Tokens[at].Revoked = true
+		nb := 3 + c.T.Choose(4)
+		for k := 0; k < nb; k++ {
+			bp := &TunPlan{Name: fmt.Sprintf("bad%d", k), Transport: "ws", From: fmt.Sprintf("10.9.9.9:%d", 41000+k), ConnID: fmt.Sprintf("{BAD-%d-%d}", c.Res.Seed&0xffff, k), CloseAfter: -1}
+			bp.Pkts = []CPkt{PHandshake(tw.MC.ServerCaps, 1, 0), PTunnelCreate(MintCookie(c, tw.Cfg.PAASigningKey, "leaver", tw.Plans[0].AllowedHost, "10.9.9.9", at, 5*time.Minute), false)}
+			bt := StartTunnels(c, []*TunPlan{bp})
+			c.S.Run(func() bool {
+				return bt[0].Client.Failed != "" || bt[0].Err != "" || len(bt[0].Client.Packets()) >= 2 || bt[0].Client.Ended()
+			}, 3000, 10*time.Second)
+			bt[0].Client.CloseAll(false)
+		}
+		c.S.Run(nil, 100, time.Second)
+		ds = append(ds, fmt.Sprintf("after-%d-tunnel-creates-with-a-revoked-token-by-someone-else", nb))
+		c.S.Count("probe.revoked_token_presented_repeatedly_by_another_client")
+	}
 	installStalls(c, c.T.Choose(3))
 	tw.Tuns = StartTunnels(c, tw.Plans)
+	if silentIdx >= 0 {
+		// when the silence is over, somebody else knocks at the gateway (a legacy client that
+		// opens its outgoing connection and goes no further)
+		st, visited := tw.Tuns[silentIdx], false
+		c.S.AddActor("V visitor after the silence", func() bool { return !visited && st.quiet[silentPkt] }, func() {
+			visited = true
+			v := c.W.NewTunClient("visitor", "legacy", "10.9.8.7:45000", fmt.Sprintf("{VISITOR-%d}", c.Res.Seed&0xffff))
+			v.OpenOut()
+			c.S.Count("probe.visitor_after_long_silence")
+		})
+	}
 	// one client may stop reading for good while its host keeps sending: its own business,
 	// every other tunnel goes on
 	deaf := -1
